@@ -260,7 +260,7 @@ func c11Property(t *rapid.T) {
 			// known finding: the block store's table repair spins forever on a data file that is ahead of
 			// its index; such images are excluded by construction and counted
 			st.KnownFinding("KF-C11:torn-table-append", c.String())
-			st.Case("", "image:torn-table-append(skipped, known finding)")
+			st.Class("image:torn-table-append(skipped, known finding)", 1)
 			continue
 		}
 		img := sim.NewDir("c11-img")
